@@ -1398,6 +1398,10 @@ func (c *Checker) checkEntry(x *callCtx, addr []byte, k string, v []byte) {
 		}
 		suffix := rest[i:]
 		switch {
+		case t.TokenMetaData == nil && suffix != "" && t.Value.Sign() == 0 && e.Frozen:
+			// the flag carrier of a frozen NFT: the system contract freezes an NFT on an account through the identifier
+			// token‖nonce; on an account that holds nothing of it that leaves the zero-balance entry "that remains only
+			// to carry a frozen flag" (C15's own words) under the NFT's key - it has no quantity and no metadata to carry
 		case t.TokenMetaData == nil && suffix != "":
 			c.report(x, "C15", "entry %x of account %x (token %q, nonce suffix %x) has no metadata", k, addr, rest[:i], suffix)
 		case t.TokenMetaData != nil && string(NonceBytes(t.TokenMetaData.Nonce)) != suffix:
